@@ -320,6 +320,69 @@ func ruleFlagOnly(p *Program, r *Reporter) {
 		r.Undecided("optimizer switch in Prepare", p.Pos(fn.Pos()), "cannot find the boolean merged from the flags and the branch that decides on it")
 		return
 	}
+	// the switch starts on and can only be turned off: every value merged into
+	// it is a constant or the switch itself, so one NoOptimize among the flags
+	// decides, wherever it stands
+	{
+		feeding := map[*ssa.Phi]bool{}
+		var add func(v ssa.Value)
+		add = func(v ssa.Value) {
+			if u, ok := v.(*ssa.UnOp); ok && u.Op == token.NOT {
+				v = u.X
+			}
+			if ph, ok := v.(*ssa.Phi); ok && !feeding[ph] {
+				feeding[ph] = true
+				for _, e := range ph.Edges {
+					add(e)
+				}
+			}
+		}
+		for _, d := range decisions {
+			add(d.Cond)
+		}
+		bad := token.NoPos
+		sawFalse := false
+		for ph := range feeding {
+			for i, e := range ph.Edges {
+				switch x := e.(type) {
+				case *ssa.Phi:
+				case *ssa.Const:
+					if x.Value != nil && x.Value.Kind() == constant.Bool && !constant.BoolVal(x.Value) {
+						sawFalse = true
+					}
+				default:
+					// `switch = switch && x`: the computed value arrives only
+					// from where the switch was still on
+					pd := ph.Block().Preds[i]
+					carried := false
+					for d := pd; d != nil && d.Idom() != nil; d = d.Idom() {
+						if iff, ok := terminator(d.Idom()).(*ssa.If); ok {
+							if cp, ok := iff.Cond.(*ssa.Phi); ok && feeding[cp] && d.Idom().Succs[0] == d && len(d.Preds) == 1 {
+								carried = true
+							}
+						}
+					}
+					if carried {
+						sawFalse = true
+						continue
+					}
+					bad = ph.Pos()
+					if ins, ok := e.(ssa.Instruction); ok && ins.Pos().IsValid() {
+						bad = ins.Pos()
+					}
+				}
+			}
+		}
+		mkey := "the optimizer switch is only ever turned off by a flag"
+		switch {
+		case bad.IsValid():
+			r.Fail(mkey, p.Pos(bad), "the switch is assigned a computed value while the flags are scanned: a later group of flags can turn the optimizer back on, so NoOptimize is honoured only in some positions of the arguments")
+		case !sawFalse:
+			r.Fail(mkey, p.Pos(fn.Pos()), "nothing ever turns the switch off")
+		default:
+			r.OkNT(mkey, p.Pos(fn.Pos()), "merged from the constants true (initially) and false (a flag was seen) only")
+		}
+	}
 	// every region guarded by a flag-dependent branch may only set / remove /
 	// look up one variable of constant name: the optimizer switch
 	good, why := true, ""
@@ -339,6 +402,9 @@ func ruleFlagOnly(p *Program, r *Reporter) {
 						cal := x.Call.StaticCallee()
 						if cal != nil && recvNamed(cal, "environment", "Environment") {
 							continue
+						}
+						if cal != nil && fnPkg(cal) != nil && (fnPkg(cal).Pkg.Path() == "bytes" || fnPkg(cal).Pkg.Path() == "strings") {
+							continue // scanning the flags themselves
 						}
 						good, why = false, "a branch of Prepare that depends on the flag does more than handle the optimizer switch: it calls "+calleeFullName(&x.Call)
 					case *ssa.Store:
@@ -372,6 +438,9 @@ func ruleFlagOnly(p *Program, r *Reporter) {
 							}
 							continue
 						}
+					}
+					if cal != nil && fnPkg(cal) != nil && (fnPkg(cal).Pkg.Path() == "bytes" || fnPkg(cal).Pkg.Path() == "strings") {
+						continue // scanning the flags themselves
 					}
 					good, why = false, "a branch of Prepare that depends on the flag does more than handle the optimizer switch: it calls "+calleeFullName(&x.Call)
 				case *ssa.Store:
